@@ -237,7 +237,7 @@ def enum_plans(quick):
                     if path == "socket":
                         p["spont"] = sp
                     out.append(p)
-    depth = 10 if quick else 40
+    depth = 10 if quick else 70
     vs = [4, 7, 8, 13, 14, 15] if quick else VERSIONS
     for v in vs:
         for k in range(depth):
@@ -251,4 +251,4 @@ def run(ctx):
     ps = enum_plans(quick)
     ctx.parallel(_worker_enum, [ps[i::48] for i in range(48)])
     ctx.exhaustive["every V x path x second-reset mode fault-free; single fault on each of the first N frames"] = True
-    ctx.parallel(_worker, [80] * 16 if quick else [650] * 16)
+    ctx.parallel(_worker, [80] * 16 if quick else [6000] * 16)
